@@ -28,6 +28,10 @@ CONTENT = [
     ("bolditalic", "'''''bi'''''"), ("nested", "[[l|''i'' {{t|q}}]]"),
     # a literal | is only literal in a cell that already has attributes
     ("bar-text", "p | q"),
+    # the same |-separated argument list written as three different kinds
+    # of construct (they must stay what they were written as)
+    ("same-as-template", "{{same|arg}}"), ("same-as-link", "[[same|arg]]"),
+    ("same-as-targ", "{{{same|arg}}}"),
 ]
 CONTENT_D = dict(CONTENT)
 # arguments of template / parser-function calls: markup that the parser keeps
@@ -95,6 +99,9 @@ def nonblank(children):
 
 
 def content_matches(ctx, node_children, text, NodeKind, WikiNode):
+    # the stand-alone reference is parsed as a page of its own: per-page
+    # caches of the context must not carry the document's reading over
+    ctx.start_page("Reference")
     ctx2root = ctx.parse(text)
     a = rtree.canon(node_children, NodeKind, WikiNode)
     b = rtree.canon(ctx2root.children, NodeKind, WikiNode)
@@ -366,6 +373,7 @@ def check_call(ctx, form, head, args):
     written = args if form != "extlink" else args[:1]
     for i, a in enumerate(written):
         got = n.largs[i + 1]
+        ctx.start_page("Reference")
         ref = ctx.parse(a).children
         ga = rtree.canon(got, K, WikiNode)
         gb = rtree.canon(ref, K, WikiNode)
